@@ -67,6 +67,10 @@ func kPtrNN(s string) kind { return kind{k: "ptr", s: s, nn: true} }
 // errPairs: path of an error value -> the pointer it is paired with (err != nil <=> ptr == nil)
 var errPairs = map[string]val{}
 
+// mapEntryExprs: path of a pointer read from a map of pointers -> the index expression it was read
+// with (an assignment through such a pointer changes the entry of the map)
+var mapEntryExprs = map[string]*ast.IndexExpr{}
+
 // okPairs: path of the bool of a (pointer, ok) result pair -> the pointer (ok <=> pointer != nil)
 var okPairs = map[string]val{}
 
@@ -132,6 +136,8 @@ func leanType(k kind) string {
 		return "Option FlushResult"
 	case "set":
 		return "List Nat"
+	case "map":
+		return "(Map String " + leanStruct[k.s] + ")"
 	case "aftresult":
 		return "(Nat × AftSt)"
 	case "list":
@@ -389,6 +395,8 @@ func render(e ast.Expr) string {
 			return "{}"
 		}
 		return render(v.Type) + "{}"
+	case *ast.IndexExpr:
+		return render(v.X) + "[" + render(v.Index) + "]"
 	case *ast.ArrayType:
 		return "[]" + render(v.Elt)
 	case *ast.ChanType:
@@ -558,6 +566,14 @@ func trExpr(e ast.Expr, en env) val {
 			}
 		}
 		fail(v.Pos(), "binary %s", v.Op)
+	case *ast.IndexExpr:
+		m := trExpr(v.X, en)
+		if m.kd.k != "map" {
+			fail(v.Pos(), "index of %s", m.kd)
+		}
+		k := trExpr(v.Index, en)
+		mapEntryExprs[render(v)] = v
+		return val{lean: "(Map.get? " + atom(m.lean) + " " + atom(k.lean) + ")", kd: kPtr(m.kd.s), path: render(v)}
 	case *ast.CallExpr:
 		vs := trCall(v, en)
 		if len(vs) != 1 {
@@ -590,6 +606,14 @@ func trComposite(cl *ast.CompositeLit, en env) val {
 		k := render(kv.Key)
 		f := fieldOf(name, k, kv.Pos())
 		x := trExpr(kv.Value, en)
+		if f.kd.k == "ptr" && f.kd.nn {
+			b, ok := en.bound[x.path]
+			if !ok {
+				fail(kv.Pos(), "field %s must be given a non-nil value", k)
+			}
+			given[f.lean] = b
+			continue
+		}
 		given[f.lean] = x.lean
 	}
 	var parts []string
@@ -907,6 +931,11 @@ func trLoop(v *ast.RangeStmt, en env, next cont) string {
 	}
 	l := trExpr(v.X, en)
 	en = absorb(en)
+	isMap := l.kd.k == "map"
+	if isMap {
+		// a Go map of structs: a list of (key, value) pairs in an arbitrary order
+		l = val{lean: l.lean, kd: kind{k: "list", s: l.kd.s, keyed: true, elemNN: true}}
+	}
 	if l.kd.k != "list" {
 		fail(v.Pos(), "range over %s", l.kd)
 	}
@@ -992,7 +1021,15 @@ func trLoop(v *ast.RangeStmt, en env, next cont) string {
 	base := next(rebind(e0))
 	inner := rebind(e0).push()
 	elemKind := kPtr(l.kd.s)
-	if l.kd.s != "String" {
+	if isMap {
+		pv := fresh("path")
+		inner.bound[pv] = xn + ".2"
+		inner.declare(xv.Name, val{lean: "(some " + xn + ".2)", kd: elemKind, path: pv})
+		if keyName != "" {
+			inner.declare(keyName, val{lean: xn + ".1", kd: kStr})
+			keyName = ""
+		}
+	} else if l.kd.s != "String" {
 		inner.declare(xv.Name, val{lean: xn, kd: elemKind, path: fresh("path")})
 		if l.kd.elemNN {
 			ev := inner.vars[xv.Name]
@@ -1034,6 +1071,9 @@ func trLoop(v *ast.RangeStmt, en env, next cont) string {
 	elemT := leanStruct[l.kd.s]
 	if !l.kd.elemNN && l.kd.s != "String" {
 		elemT = "Option " + elemT
+	}
+	if isMap {
+		elemT = "String × " + elemT
 	}
 	sig := "List (" + elemT + ")"
 	for _, t := range types {
@@ -1102,6 +1142,9 @@ func trRange(v *ast.RangeStmt, en env, next cont) string {
 }
 
 func zeroOf(k kind) string {
+	if k.k == "ptr" && k.nn {
+		return "default"
+	}
 	switch k.k {
 	case "bool":
 		return "false"
@@ -1258,7 +1301,19 @@ func trCall(c *ast.CallExpr, en env) []val {
 	// another translated function
 	for i := range specs {
 		sp := &specs[i]
-		if sp.callAs == fn {
+		isMethodCall := false
+		if sp.recvIsParam && strings.HasPrefix(sp.callAs, "*.") {
+			if sel, ok := c.Fun.(*ast.SelectorExpr); ok && sel.Sel.Name == sp.callAs[2:] {
+				// a method of a translated struct type: the receiver is the first argument
+				if rv := trExpr(sel.X, en); rv.kd.k == "ptr" && "*"+rv.kd.s == sp.recvType {
+					isMethodCall = true
+					nc := *c
+					nc.Args = append([]ast.Expr{sel.X}, c.Args...)
+					c = &nc
+				}
+			}
+		}
+		if sp.callAs == fn || isMethodCall {
 			if failed[sp.leanName] {
 				fail(c.Pos(), "call of %s, which could not be translated", fn)
 			}
@@ -1273,6 +1328,10 @@ func trCall(c *ast.CallExpr, en env) []val {
 				x := trExpr(a, en)
 				p := sp.params[j]
 				if p.nonnil {
+					if x.kd.k == "ptr" && x.kd.nn {
+						args = append(args, atom(x.lean))
+						continue
+					}
 					b, ok := en.bound[x.path]
 					if !ok {
 						fail(a.Pos(), "argument %s of %s must be non-nil and is not known to be", render(a), fn)
@@ -1607,8 +1666,48 @@ func bindResult(en *env, name string, v val, define bool, pos token.Pos) {
 	}
 }
 
+// mapUpdate: the state variable mexpr (a map) gets the binding key -> the struct newVal (a Lean
+// term of the struct type); what was known about other entries of the map is forgotten
+func mapUpdate(en *env, mexpr ast.Expr, key ast.Expr, newVal string, pos token.Pos) {
+	r := render(mexpr)
+	m, ok := en.vars[r]
+	if !ok || m.kd.k != "map" || cur == nil || !cur.isState(r) {
+		fail(pos, "update of %s, which is not a map-valued state field", r)
+	}
+	k := trExpr(key, *en)
+	n := fresh(lastName(r))
+	vn := fresh("entry")
+	pendingLets = append(pendingLets, fmt.Sprintf("let %s : %s := %s", vn, leanStruct[m.kd.s], newVal))
+	pendingLets = append(pendingLets, fmt.Sprintf("let %s := Map.insert %s %s %s", n, atom(m.lean), atom(k.lean), vn))
+	en.vars[r] = val{lean: n, kd: m.kd, path: m.path}
+	pfx := r + "["
+	for p := range en.bound {
+		if strings.HasPrefix(p, pfx) {
+			delete(en.bound, p)
+		}
+	}
+	for p := range en.isNil {
+		if strings.HasPrefix(p, pfx) {
+			delete(en.isNil, p)
+		}
+	}
+	en.bound[r+"["+render(key)+"]"] = vn
+}
+
 func trAssign(a *ast.AssignStmt, en env) env {
 	en = en.clone()
+	// v, ok := m[k]
+	if len(a.Lhs) == 2 && len(a.Rhs) == 1 {
+		if ix, ok := a.Rhs[0].(*ast.IndexExpr); ok {
+			p := trExpr(ix, en)
+			okv := val{lean: "(" + atom(p.lean) + ".isSome)", kd: kBool, path: "okof:" + p.path}
+			okPairs[okv.path] = p
+			define := a.Tok == token.DEFINE
+			bindResult(&en, a.Lhs[0].(*ast.Ident).Name, p, define, a.Pos())
+			bindResult(&en, a.Lhs[1].(*ast.Ident).Name, okv, define, a.Pos())
+			return en
+		}
+	}
 	if len(a.Lhs) == 1 && len(a.Rhs) == 1 {
 		if fl, ok := a.Rhs[0].(*ast.FuncLit); ok {
 			id, ok := a.Lhs[0].(*ast.Ident)
@@ -1653,8 +1752,38 @@ func trAssign(a *ast.AssignStmt, en env) env {
 				en.vars[r] = vals[i]
 				break
 			}
+			if ix, ok := lv.X.(*ast.IndexExpr); ok {
+				// m[k].f = v : the entry of the map is replaced by a copy with the field changed
+				if mv, isMap := en.vars[render(ix.X)]; isMap && mv.kd.k == "map" {
+					b, bound := en.bound[render(ix)]
+					if !bound {
+						fail(a.Pos(), "assignment through %s, which may be nil", render(ix))
+					}
+					f := fieldOf(mv.kd.s, lv.Sel.Name, a.Pos())
+					nv := vals[i].lean
+					if f.kd.nn {
+						vb, ok := en.bound[vals[i].path]
+						if !ok {
+							fail(a.Pos(), "the value stored in %s must be non-nil", r)
+						}
+						nv = vb
+					}
+					mapUpdate(&en, ix.X, ix.Index, "{ "+b+" with "+f.lean+" := "+nv+" }", a.Pos())
+					break
+				}
+			}
 			if id, ok := lv.X.(*ast.Ident); ok {
 				if x, ok := en.vars[id.Name]; ok && x.kd.k == "ptr" {
+					if ix, isEntry := mapEntryExprs[x.path]; isEntry {
+						// the pointer was read from a map of pointers: the assignment changes the entry
+						b, bound := en.bound[x.path]
+						if !bound {
+							fail(a.Pos(), "assignment through %s, which may be nil", id.Name)
+						}
+						f := fieldOf(x.kd.s, lv.Sel.Name, a.Pos())
+						mapUpdate(&en, ix.X, ix.Index, "{ "+b+" with "+f.lean+" := "+vals[i].lean+" }", a.Pos())
+						break
+					}
 					fieldOf(x.kd.s, lv.Sel.Name, a.Pos())
 					v := vals[i]
 					switch v.kd.k {
@@ -1670,6 +1799,15 @@ func trAssign(a *ast.AssignStmt, en env) env {
 			}
 			fail(a.Pos(), "assignment to %s, which is neither a declared state field nor a field of a local struct", r)
 		case *ast.IndexExpr:
+			if mv, isMap := en.vars[render(lv.X)]; isMap && mv.kd.k == "map" {
+				v := vals[i]
+				b, bound := en.bound[v.path]
+				if v.kd.k != "ptr" || v.kd.s != mv.kd.s || !bound {
+					fail(a.Pos(), "the value stored in %s must be a non-nil pointer to %s", render(l), mv.kd.s)
+				}
+				mapUpdate(&en, lv.X, lv.Index, b, a.Pos())
+				break
+			}
 			id, ok := lv.X.(*ast.Ident)
 			x, ok2 := en.vars[render(lv.X)]
 			if !ok || !ok2 || x.kd.k != "set" || render(a.Rhs[i]) != "true" {
@@ -1700,6 +1838,25 @@ func trStmts(list []ast.Stmt, en env, k cont) string {
 		if c, ok := v.X.(*ast.CallExpr); ok {
 			if isSkippableCall(c) {
 				return next(en)
+			}
+			if render(c.Fun) == "delete" && len(c.Args) == 2 {
+				r := render(c.Args[0])
+				m, ok := en.vars[r]
+				if !ok || m.kd.k != "map" || !cur.isState(r) {
+					fail(c.Pos(), "delete from %s", r)
+				}
+				k := trExpr(c.Args[1], en)
+				e1 := en.clone()
+				n := fresh(lastName(r))
+				lets := append(takeLets(), fmt.Sprintf("let %s := Map.erase %s %s", n, atom(m.lean), atom(k.lean)))
+				e1.vars[r] = val{lean: n, kd: m.kd, path: m.path}
+				for p := range e1.bound {
+					if strings.HasPrefix(p, r+"[") {
+						delete(e1.bound, p)
+					}
+				}
+				e1.isNil[r+"["+render(c.Args[1])+"]"] = true
+				return wrapLets(lets, next(e1))
 			}
 			trCall(c, en) // oracle with an effect, results discarded
 			e1 := absorb(en)
@@ -2191,11 +2348,18 @@ func constValue(f *ast.File, name string) (string, bool) {
 	return "", false
 }
 
-func findFunc(f *ast.File, name string) *ast.FuncDecl {
+func findFunc(f *ast.File, name, recvType string) *ast.FuncDecl {
 	for _, d := range f.Decls {
-		if fd, ok := d.(*ast.FuncDecl); ok && fd.Name.Name == name {
-			return fd
+		fd, ok := d.(*ast.FuncDecl)
+		if !ok || fd.Name.Name != name {
+			continue
 		}
+		if recvType != "" {
+			if fd.Recv == nil || len(fd.Recv.List) != 1 || render(fd.Recv.List[0].Type) != recvType {
+				continue
+			}
+		}
+		return fd
 	}
 	return nil
 }
@@ -2212,7 +2376,7 @@ func translate(sp *fnSpec, files map[string]*ast.File, srcs map[string][]byte) (
 	}()
 	f := files[sp.file]
 	srcBytes = srcs[sp.file]
-	fd := findFunc(f, sp.goName)
+	fd := findFunc(f, sp.goName, sp.recvType)
 	if fd == nil {
 		return "", fmt.Errorf("%s: function not found in %s", sp.goName, sp.file)
 	}
@@ -2231,6 +2395,9 @@ func translate(sp *fnSpec, files map[string]*ast.File, srcs map[string][]byte) (
 	var binders []string
 	// Go parameters, in order, must be the ones the spec lists
 	var goParams []string
+	if sp.recvType != "" && sp.recvIsParam {
+		goParams = append(goParams, fd.Recv.List[0].Names[0].Name+" "+render(fd.Recv.List[0].Type))
+	}
 	for _, p := range fd.Type.Params.List {
 		for _, n := range p.Names {
 			goParams = append(goParams, n.Name+" "+render(p.Type))
